@@ -7,10 +7,10 @@ Spec : MapperRow.tla - an abstract table (one partition, two clustering keys; co
        __update / None / empty collections, queryset delete of row / partition, if_not_exists / if_exists / iff, batches
        of those, counter increments / decrements).  The state after an action is what the DOCUMENTATION promises.
 TLC  : explores every operation sequence up to MaxSteps from four initial histories, checks TypeOK, SaveKeepsSync (an
-       instance that agreed with its row agrees with it after change + save) and RefusedChangesNothing, and dumps the
-       state graph.
-Bind : EVERY edge that can be reached through conforming edges is replayed on the real model classes: the operation is
-       run through the public API against the recording session; the CQL it emits is EXECUTED by
+       instance that agreed with its row agrees with it after change + save) and RefusedChangesNothing (both evaluated by
+       the step on (state, successor) and carried in the history variable `sane`), and dumps the state graph.
+Bind : EVERY PATH of the graph (every operation sequence; nothing behind a diverging step) is replayed on the real model
+       classes: each operation is run through the public API against the recording session; the CQL it emits is EXECUTED by
        harness/replay/cql_interp.py (Cassandra's cell semantics for exactly the emitted subset); afterwards the
        interpreter's table must equal the spec's `db`, the instance's attributes the spec's inst.cur, LWTException must
        be raised exactly when the spec refuses, and whenever the spec says instance and row agree a fresh read of the
@@ -137,7 +137,9 @@ def classify(M, mode, op, pre, post, code, out, ok, readback, statements):
             fo = {"s__add": "s", "s__remove": "s", "l__append": "l", "l__prepend": "l", "m__update": "m", "m__remove": "m"}
             kws = [k["kw"] for k in op["sets"] if fo.get(k["kw"], k["kw"]) in fields] or [k["kw"] for k in op["sets"]]
             empty = [k["kw"] for k in op["sets"] if k["kw"] in kws and k["kw"] in ("m__update", "m__remove") and not any(k["x"])]
-            return "qsupdate:%s%s:row-differs" % ("+".join(sorted(kws)), "(empty)" if empty else ""), what
+            if empty:
+                return "qsupdate:map-operation-without-keys:row-differs", what
+            return "qsupdate:%s:row-differs" % "+".join(sorted(kws)), what
         if name in ("isave", "batch", "isaveas", "create"):
             touched = touched_columns(M, statements)
             if name == "batch":
@@ -153,6 +155,8 @@ def classify(M, mode, op, pre, post, code, out, ok, readback, statements):
                 return "save:unmodified-column-written", what
             if any(f in changed and f not in touched and "*" not in touched for f in fields):
                 return "save:modified-column-not-written", what
+            if name in ("isave", "batch"):
+                return "save:wrong-value", what
             return "%s:wrong-value:%s" % (name, "+".join(fields)), what
         return "%s:row-differs:%s" % (name, "+".join(fields)), what
     if readback:
@@ -231,36 +235,35 @@ class Replayer(object):
             pre = post
         return None
 
-    def all_edges(self, on_edge):
-        """Breadth first: every out-edge of every node that has a conforming path is replayed once.
-        on_edge(start, path, result)"""
-        clean = collections.OrderedDict()
+    def all_paths(self, on_edge):
+        """Every operation sequence of the graph (every path from an initial state, not just every edge: two histories
+        that reach the same specification state may leave the real instance in different internal states) is
+        replayed; nothing is replayed behind a diverging step.    on_edge(start, path, result)
+        -> (paths replayed, edges covered)"""
+        covered = set()
+        replayed = 0
+        stack = []
         for i in self.init:
             r = self.run_path(i, [])
             on_edge(i, [], r)
             if r is None:
-                clean[i] = (i, [])
-        frontier = list(clean)
-        replayed = 0
-        while frontier:
-            nxt = []
-            for u in frontier:
-                start, path = clean[u]
-                for (v, oi) in self.succ.get(u, ()):
-                    p = path + [(v, oi)]
-                    r = self.run_path(start, p)
-                    replayed += 1
-                    on_edge(start, p, r)
-                    if r is None and v not in clean:
-                        clean[v] = (start, p)
-                        nxt.append(v)
-            frontier = nxt
-        return replayed, len(clean)
+                stack.append((i, i, []))
+        while stack:
+            start, u, path = stack.pop()
+            for (v, oi) in self.succ.get(u, ()):
+                p = path + [(v, oi)]
+                r = self.run_path(start, p)
+                replayed += 1
+                covered.add((u, v, oi))
+                on_edge(start, p, r)
+                if r is None and self.succ.get(v):
+                    stack.append((start, v, p))
+        return replayed, len(covered)
 
     def random_walks(self, rng, count, on_edge):
         """Seeded random maximal walks; every prefix of a walk is compared (run_path compares the last step, so the
         walk is executed prefix by prefix only when a prefix was not seen before)."""
-        seen = set()
+        seen = {}
         walked = 0
         for _ in range(count):
             start = rng.choice(self.init)
@@ -271,23 +274,23 @@ class Replayer(object):
                 path = path + [(v, oi)]
                 key = (start, tuple(path))
                 if key not in seen:
-                    seen.add(key)
                     r = self.run_path(start, path)
+                    seen[key] = r is None
                     walked += 1
                     on_edge(start, path, r)
-                    if r is not None:
-                        break
+                if not seen[key]:
+                    break                       # nothing behind a diverging edge can be compared
                 u = v
-        return walked, len(set((s, p[-1]) for s, p in seen))
+        return walked, len(set((p[-2][0] if len(p) > 1 else s, p[-1]) for s, p in seen))
 
 
 # ------------------------------------------------------------------ the check
 
 def explore(ctx, M, mode, steps, wide, batch, label, by_signature, full=True, walks=0):
     consts = _const(mode, steps, wide, batch)
-    props = ["SaveKeepsSync", "RefusedChangesNothing"] if mode == "row" else []
-    cfg = tlc.write_cfg(os.path.join(ctx.scratch, "row_%s_%s.cfg" % (mode, label)), constants=consts, invariants=["TypeOK"],
-                        properties=props, deadlock=False)
+    nxt = "NextCounter" if mode == "counter" else ("Next" if wide else "NextNarrow")
+    cfg = tlc.write_cfg(os.path.join(ctx.scratch, "row_%s_%s.cfg" % (mode, label)), constants=consts, next=nxt,
+                        invariants=["TypeOK", "SaveKeepsSync", "RefusedChangesNothing"], deadlock=False)
     res, nodes, edges, init = tlc.state_graph("MapperRow", cfg, ctx.scratch, timeout=3000, workers=8)
     ctx.add_tlc(res, "%s, %s" % (mode, label))
     if res.violation:
@@ -299,6 +302,8 @@ def explore(ctx, M, mode, steps, wide, batch, label, by_signature, full=True, wa
     if not printed_ops or not printed_inits:
         raise tlc.MachineryError("TLC did not print the operation alphabet")
     ops, inits = printed_ops[0][1], printed_inits[0][1]
+    if len(ops) > {"NextCounter": 16, "NextNarrow": 96, "Next": 320}[nxt]:
+        raise tlc.MachineryError("the alphabet has %d operations, %s covers fewer" % (len(ops), nxt))
     taken = set(int(lab[lab.index("(") + 1:lab.index(")")]) for _, _, lab in edges)
     never = [i for i in range(1, len(ops) + 1) if i not in taken]
     if never:
@@ -311,7 +316,8 @@ def explore(ctx, M, mode, steps, wide, batch, label, by_signature, full=True, wa
         raise tlc.MachineryError("vacuity: %s not reached in the %s graph (%s)" % ([w for w in wanted if w not in seen], mode, label))
     if not ctx.quick and full:
         for w in wanted:
-            wcfg = tlc.write_cfg(os.path.join(ctx.scratch, "%s_%s_%s.cfg" % (w, mode, label)), constants=consts, invariants=[w], deadlock=False)
+            wcfg = tlc.write_cfg(os.path.join(ctx.scratch, "%s_%s_%s.cfg" % (w, mode, label)), constants=consts, next=nxt,
+                                 invariants=[w], deadlock=False)
             wres = tlc.check_model("MapperRow", wcfg, ctx.scratch, timeout=3000, workers=8)
             if wres.invariant != w:
                 raise tlc.MachineryError("vacuity witness %s was not reached (%s, %s)" % (w, mode, label))
@@ -341,9 +347,9 @@ def explore(ctx, M, mode, steps, wide, batch, label, by_signature, full=True, wa
                           signature=sig)
     try:
         if full:
-            replayed, clean_nodes = rp.all_edges(on_edge)
-            cov = {"edges": len(edges), "edges_replayed": replayed, "edges_conforming": stats["clean"] - len(init),
-                   "nodes": len(nodes), "nodes_reached_by_conforming_paths": clean_nodes}
+            replayed, covered = rp.all_paths(on_edge)
+            cov = {"edges": len(edges), "edges_covered": covered, "paths_replayed": replayed,
+                   "edges_conforming": stats["clean"] - len(init), "nodes": len(nodes)}
         else:
             walked, covered = rp.random_walks(ctx.rng, walks, on_edge)
             cov = {"edges": len(edges), "walk_prefixes_replayed": walked, "edges_covered_by_walks": covered,
@@ -352,8 +358,8 @@ def explore(ctx, M, mode, steps, wide, batch, label, by_signature, full=True, wa
         cov["alphabet"] = len(ops)
         ctx.traces_validated += max(cov["edges_conforming"], 0)
         ctx.note("coverage_%s_%s" % (mode, label), cov)
-        if full and not stats["diverged"] and cov["edges_replayed"] != len(edges):
-            raise tlc.MachineryError("no divergence, but only %d of %d edges were replayed" % (cov["edges_replayed"], len(edges)))
+        if full and not stats["diverged"] and cov["edges_covered"] != len(set(edges)):
+            raise tlc.MachineryError("no divergence, but only %d of %d edges were replayed" % (cov["edges_covered"], len(set(edges))))
         return rp, nodes, edges, init, ops, inits
     except Exception:
         rp.close()
@@ -370,7 +376,7 @@ def run(ctx):
                     ("counter", 3, False, 2, "3 operations", True, 0)]
         else:
             plan = [("row", 2, True, 3, "wide alphabet, 2 operations", True, 0),
-                    ("row", 3, False, 2, "narrow alphabet, 3 operations", False, 30000),
+                    ("row", 3, False, 2, "narrow alphabet, 3 operations", False, 20000),
                     ("counter", 4, False, 2, "4 operations", True, 0)]
         for mode, steps, wide, batch, label, full, walks in plan:
             got = explore(ctx, M, mode, steps, wide, batch, label, by_signature, full=full, walks=walks)
@@ -506,7 +512,8 @@ def replay(ctx, obj):
     from harness.replay import mapper as M
     consts = obj["consts"]
     mode = obj["mode"]
-    cfg = tlc.write_cfg(os.path.join(ctx.scratch, "replay.cfg"), constants=consts, invariants=["TypeOK"], deadlock=False)
+    cfg = tlc.write_cfg(os.path.join(ctx.scratch, "replay.cfg"), constants=consts, invariants=["TypeOK"], deadlock=False,
+                        next="NextCounter" if mode == "counter" else "Next")
     res, nodes, edges, init = tlc.state_graph("MapperRow", cfg, ctx.scratch, timeout=3000, workers=8)
     ops, inits = res.printed("OPS")[0][1], res.printed("INITS")[0][1]
     rp = Replayer(M, mode, nodes, edges, init, ops, inits)
